@@ -122,6 +122,9 @@ func (p *Prog) CallGraph() *CG {
 						cal = Unwrap(cal)
 						if p.isModuleFunc(cal) && cal.Blocks != nil {
 							add(Edge{Caller: f, Site: in, Callee: cal, Kind: "static"})
+							if o := cal.Origin(); o != nil && o != cal && o.Blocks != nil {
+								add(Edge{Caller: f, Site: in, Callee: o, Kind: "static"})
+							}
 						}
 					}
 				case *ssa.MakeClosure:
